@@ -132,6 +132,49 @@ def discard_pattern(rng, cls, npatches) -> List[Any]:
     return cmds
 
 
+def long_chain_script(rng, cls) -> List[Any]:
+    """A record with 10-12 tiny committed patches (container names whose lexicographic order is not
+    the patch order), next to a short neighbour; closed, then reopened 'r' by name, by the explicit
+    list in patch order, reversed, sorted by name and shuffled; one writable session by shuffled list
+    adds a further patch, then 'r' by name and by shuffled list again."""
+    g = Gen(rng)
+    n = rng.choice(NAMES)
+    other = rng.choice([m for m in NAMES if m != n])
+    k = rng.randint(10, 12)
+    cmds = g.session(rng.choice(CLASSES), "w", other, commit=True)
+    cmds += g.session(cls, rng.choice(["w", "x", "a"]), n, lo=1, hi=1, commit=True)
+    for _ in range(k):
+        cmds += g.session(cls, rng.choice(["r+", "a"]), n, lo=1, hi=1, commit=True)
+
+    def chain(j):
+        return [f"{n}.ih5"] + [f"{n}.p{i}.ih5" for i in range(1, j + 1)]
+
+    def ro(target):
+        return [g.open(cls, "r", ["name", n])[:3] + [target, g.id(), g.id()], ["close", "T"], ["drop"]]
+
+    def orders(fs):
+        out = [list(fs), list(reversed(fs)), sorted(fs)]
+        for _ in range(2):
+            sh = list(fs)
+            rng.shuffle(sh)
+            out.append(sh)
+        return out
+
+    cmds.append(["classify", n])
+    cmds += ro(["name", n])
+    for fs in orders(chain(k)):
+        cmds += ro(["list", fs])
+    sh = chain(k)
+    rng.shuffle(sh)
+    cmds += [["open", cls, rng.choice(["r+", "a"]), ["list", sh], g.id(), g.id()], g.write(), ["close", "T"], ["drop"]]
+    cmds += ro(["name", n])
+    for fs in orders(chain(k + 1))[1:4]:
+        cmds += ro(["list", fs])
+    cmds.append(["reopen-perms", rng.choice(CLASSES), other, 2])
+    cmds.append(["classify", n])
+    return cmds
+
+
 def random_script(rng) -> List[Any]:
     g = Gen(rng)
     cmds: List[Any] = []
@@ -245,6 +288,10 @@ def run(ctx: vlib.Ctx):
         for npatches in (2, 1):
             cases.append({"cmds": discard_pattern(ctx.rng, cls, npatches), "seed": ctx.rng.randrange(10**9),
                           "rich": True, "cell": [cls, "upatch", "discard-by-list"]})
+    for cls in CLASSES:          # long chains: 10-12 patches, file-name order differs from patch order
+        for _ in range(ctx.budget(1, 4)):
+            cases.append({"cmds": long_chain_script(ctx.rng, cls), "seed": ctx.rng.randrange(10**9),
+                          "rich": True, "cell": [cls, "patched", "long-chain"]})
     for cls in CLASSES:
         for sit in SITS:
             for mode in MODES:
